@@ -1,3 +1,4 @@
+import AquaVerif.Proofs.CatalogueCfg
 import AquaVerif.Proofs.RunClosedEs
 import AquaVerif.Proofs.Day
 import AquaVerif.Proofs.WaterDay
@@ -282,5 +283,28 @@ theorem run_flux_closed {F : Fn α} {T : TrigFn α} {cfg : RunCfg α} {s : RunSt
         (d.P.fm.bunds = true → d.st.pond ≤ d.P.fm.zBund → d.r.state.pond ≤ d.P.fm.zBund)) :=
   Aqua.run_flux_closed hC hT hJ hE hW hr hR
 end closed
+
+/-! ### run level, catalogue configurations (`Proofs/Catalogue*.lean`): every hypothesis is membership in a table
+regenerated from the sources, a fact about initialisation outputs, or a premise on the weather -/
+
+section catalogueRun
+open Aqua.Response Aqua.HarvestIndexReal
+
+/-- **Run level, catalogue configurations.** `0 ≤ Es ≤ EsPot`, `0 ≤ Tr ≤ TrPot`, non-negative deep
+percolation / capillary rise / groundwater inflow / irrigation, ponding within the bunds, on every
+simulated day of every run of every catalogue configuration with `ET0 > 0`. -/
+theorem catalogue_run_flux {cfg : RunCfg ℝ} {s : RunState ℝ} (h : CatCfg cfg)
+    (het : ∀ t, 0 < (cfg.weather t).et0) (hr : RunReach realFn realTrig cfg s)
+    (hR : ∀ d ∈ s.daysRev, ResidualW d) :
+    ∀ d ∈ s.daysRev,
+      (0 ≤ d.r.flux.esPot ∧ 0 ≤ d.r.flux.es ∧ d.r.flux.es ≤ d.r.flux.esPot) ∧
+      (0 ≤ d.r.flux.trPot ∧ 0 ≤ d.r.flux.tr ∧ d.r.flux.tr ≤ d.r.flux.trPot) ∧
+      (0 ≤ d.r.flux.deepPerc ∧ 0 ≤ d.r.flux.cr ∧ 0 ≤ d.r.flux.gwIn ∧ 0 ≤ d.r.water.irr ∧
+        (d.P.W.irr.method ≠ 4 → 0 ≤ d.r.flux.irrDay)) ∧
+      (0 ≤ d.r.state.pond ∧
+        (d.P.fm.bunds = false ∨ d.P.fm.zBund ≤ 0.001 → d.r.state.pond = 0) ∧
+        (d.P.fm.bunds = true → d.st.pond ≤ d.P.fm.zBund → d.r.state.pond ≤ d.P.fm.zBund)) :=
+  Aqua.catalogue_run_flux h het hr hR
+end catalogueRun
 
 end Aqua.C04
